@@ -57,6 +57,7 @@ type sn struct {
 	mandatory bool
 	min, max  int // 0 = unset
 	unbStmt   bool // "max-elements unbounded" is stated (max == 0)
+	resolved  string // type the leafref of this copy leads to (typ is the typedef c01lr: leafref "../rid")
 	keys      []string
 	typ       string
 	kids      []*sn
@@ -237,7 +238,9 @@ func renderSem(f []*sn, ind string, b *strings.Builder) {
 		if len(n.keys) > 0 {
 			fmt.Fprintf(b, " key=%s", strings.Join(n.keys, ","))
 		}
-		if n.typ != "" {
+		if n.resolved != "" {
+			fmt.Fprintf(b, " type=leafref->%s", n.resolved)
+		} else if n.typ != "" {
 			fmt.Fprintf(b, " type=%s", n.typ)
 		}
 		b.WriteString("\n")
@@ -285,7 +288,11 @@ func renderDump(kids []interface{}, ind string, b *strings.Builder, problems *[]
 			fmt.Fprintf(b, " key=%s", strings.Join(s, ","))
 		}
 		if t, ok := m["type"].(map[string]interface{}); ok {
-			fmt.Fprintf(b, " type=%s", strings.TrimSuffix(fmt.Sprint(t["format"]), "-list"))
+			f := strings.TrimSuffix(fmt.Sprint(t["format"]), "-list")
+			if res, isRef := t["resolved"].(map[string]interface{}); isRef && f == "leafref" {
+				f += "->" + fmt.Sprint(res["format"])
+			}
+			fmt.Fprintf(b, " type=%s", f)
 		}
 		b.WriteString("\n")
 		if ok, _ := m["parent-ok"].(bool); !ok {
@@ -879,7 +886,7 @@ func (f *factorizer) texts() map[string]string {
 	if len(f.sub) > 0 {
 		b.WriteString("  include sub;\n")
 	}
-	b.WriteString("  revision 2020-01-01;\n  feature off1;\n")
+	b.WriteString("  revision 2020-01-01;\n  feature off1;\n  typedef c01lr { type leafref { path \"../rid\"; } }\n")
 	for _, t := range f.top {
 		t.render(&b, "  ")
 	}
@@ -899,7 +906,7 @@ func (f *factorizer) texts() map[string]string {
 	}
 	if len(f.imp) > 0 {
 		var ib strings.Builder
-		ib.WriteString("module imp {\n  namespace \"urn:imp\";\n  prefix imp;\n  revision 2020-01-01;\n  feature off1;\n")
+		ib.WriteString("module imp {\n  namespace \"urn:imp\";\n  prefix imp;\n  revision 2020-01-01;\n  feature off1;\n  typedef c01lr { type leafref { path \"../rid\"; } }\n")
 		for _, t := range f.imp {
 			t.render(&ib, "  ")
 		}
@@ -928,6 +935,12 @@ func (g *gen1) reuseForest(n int) *reuse {
 	for _, t := range r.tmpl {
 		t.cfgStmt = nil
 	}
+	// a leaf whose type is a typedef of a leafref to "../rid": every site has its own rid, of its own type
+	peer := &sn{kind: "leaf", name: g.nm("peer"), typ: "c01lr"}
+	if g.r.Intn(2) == 0 {
+		peer.kind = "leaf-list"
+	}
+	r.tmpl = append(r.tmpl, peer)
 	for i := 0; i < n; i++ {
 		inst := cloneForest(r.tmpl)
 		var refs []string
@@ -968,6 +981,9 @@ func (g *gen1) reuseForest(n int) *reuse {
 			}
 		}
 		rec(inst, "")
+		ridType := []string{"int32", "string", "boolean", "uint8"}[(i+g.seq)%4]
+		inst[len(inst)-1].resolved = ridType
+		inst = append([]*sn{{kind: "leaf", name: "rid", typ: ridType}}, inst...)
 		site := &sn{kind: "container", name: g.nm("site"), kids: inst}
 		r.sites = append(r.sites, site)
 		r.refs = append(r.refs, refs)
@@ -1076,7 +1092,7 @@ func (p c01) Run(c *core.Ctx, idx int) {
 				}
 				for i, s := range ru.sites {
 					u := &yn{kw: "uses", arg: usesArg, body: ru.refs[i]}
-					f.top = append(f.top, &yn{kw: "container", arg: s.name, body: propsOf(s), kids: []*yn{u}})
+					f.top = append(f.top, &yn{kw: "container", arg: s.name, body: propsOf(s), kids: []*yn{toSyntaxAt(s.kids[:1], false)[0], u}})
 				}
 				f.step(fmt.Sprintf("reuse-x%d-with-refine", len(ru.sites)))
 			}
@@ -1169,6 +1185,57 @@ func (p c01) Run(c *core.Ctx, idx int) {
 			first = got
 		} else if first != "" && sortTop(first) != sortTop(got) {
 			c.Violate("spellings-differ/"+sigSteps, "two spellings of one tree compile differently\n%s", lineDiff(first, got))
+		}
+	}
+	// many augments in one module: n statements, alternating between targets of different depth, some in the submodule; the children
+	// of every target stand in the order of the augments that added them
+	if idx%10 == 3 {
+		n := []int{2, 6, 12, 13, 14, 17, 20, 33, 64}[r.Intn(9)]
+		targets := []string{"/a", "/a/b", "/a/b/c", "/a"}
+		var augs, inline [4][]string
+		var text strings.Builder
+		text.WriteString("module m {\n  namespace \"urn:m\";\n  prefix m;\n  revision 2020-01-01;\n  container a { leaf a0 { type string; } container b { leaf b0 { type string; } container c { leaf c0 { type string; } } } }\n")
+		for i := 0; i < n; i++ {
+			t := r.Intn(3)
+			if i%2 == 0 {
+				t = i / 2 % 3
+			}
+			name := fmt.Sprintf("l%02d", i)
+			fmt.Fprintf(&text, "  augment \"%s\" { leaf %s { type string; } }\n", targets[t], name)
+			augs[t] = append(augs[t], name)
+		}
+		text.WriteString("}\n")
+		_ = inline
+		c.Eval()
+		c.Shape("many-augments/%d", n)
+		var m *meta.Module
+		var err error
+		if !c.Guard("load many augments", func() { m, err = c01load(map[string]string{"m": text.String()}, false) }) {
+			if err != nil {
+				c.Violate("load-error/many-augments", "%v\n%s", err, text.String())
+			} else {
+				got, _ := c01reduce(m)
+				var want strings.Builder
+				leafLine := func(ind, name string) { fmt.Fprintf(&want, "%sleaf %s config=true type=string\n", ind, name) }
+				want.WriteString("container a config=true\n")
+				leafLine("  ", "a0")
+				want.WriteString("  container b config=true\n")
+				leafLine("    ", "b0")
+				want.WriteString("    container c config=true\n")
+				leafLine("      ", "c0")
+				for _, l := range augs[2] {
+					leafLine("      ", l)
+				}
+				for _, l := range augs[1] {
+					leafLine("    ", l)
+				}
+				for _, l := range augs[0] {
+					leafLine("  ", l)
+				}
+				if got != want.String() {
+					c.Violate("tree-differs/order/many-augments", "%d augments: the children of the targets are not in the order of the augments\n%s\n%s", n, lineDiff(want.String(), got), text.String())
+				}
+			}
 		}
 	}
 	// illegal construction: config true under config false
